@@ -68,6 +68,9 @@ void (*E_kdf_hook)(uint8_t *key, size_t keylen);   /* called after the key is wr
 static void dep_kdf(const uint8_t *pw, size_t pwlen, const uint8_t *salt, size_t saltlen,
                     uint64_t iters, uint8_t *key, size_t keylen) {
     E.n_kdf++; logc('K');
+    /* the key buffer belongs to the callee: scribble over it before the inputs are read (a caller passing a key buffer
+     * that overlaps the password or the salt is exposed) */
+    for (size_t i = 0; i < keylen; i++) key[i] = 0xEE;
     struct kdfcall *k = &E.kdf;
     k->table = E_kdf_table; k->pwptr = pw; k->pwlen = pwlen; k->saltlen = saltlen; k->iters = iters; k->key = key; k->keylen = keylen;
     memset(k->pw, 0, sizeof k->pw); memset(k->salt, 0, sizeof k->salt);
